@@ -434,7 +434,7 @@ def r3e2_parallel_scan(ctx):
                 n_spawn += 1
                 nc = db.cg.reach([t], include_spawn=True) & non_cleaning
                 hit |= nc
-        key = "R3e2|%s|spawns %s" % (h.id, ",".join(sorted(x.split("::")[-1] for x in hit)))
+        key = "R3e2|%s|spawns the non-cleaning analysis" % h.id
         if hit:
             r.violate(key, "handler %s spawns a background task that runs the non-cleaning analysis (%s) concurrently with "
                            "did_open/did_change" % (h.id, sorted(x.split("::")[-1] for x in hit)))
